@@ -23,9 +23,10 @@ def mc_cfg(maxcalls, emit, invariants, view="ViewLean", ckpt=False):
             + (f"VIEW {view}\n" if view else "") + "CHECK_DEADLOCK FALSE\n" + "".join(f"INVARIANT {i}\n" for i in invariants))
 
 
-def check(cfg_groups, maxcalls, faults=(), moves=(), dev=(), invariants=("NoViolation", "TypeOK"), timeout=1800, tag="opt-mc", ckpt=False):
+def check(cfg_groups, maxcalls, faults=(), moves=(), dev=(), invariants=("NoViolation", "TypeOK"), timeout=1800, tag="opt-mc", ckpt=False,
+          coverage=False):
     return tlc.run("MC_Opt", mc_module(cfg_groups, faults, moves, dev), mc_cfg(maxcalls, False, invariants, ckpt=ckpt),
-                   tag=tag, timeout=timeout, memqueue=True, keep=False)
+                   tag=tag, timeout=timeout, memqueue=True, keep=False, coverage=coverage)
 
 
 def simulate(cfg_groups, maxcalls, num, seed, faults=(), moves=(), dev=(), timeout=600, tag="opt-sim", ckpt=False):
